@@ -188,6 +188,9 @@ pub struct Phase {
     /// Lower the maximum to this value and despawn WHILE the `occupy` holds are occupied (the retiring threads are busy and go on
     /// to make scheduling calls once the holds are opened); the call must return (C17)
     pub lower_while_busy: Option<usize>,
+    /// An operation of this phase that panics on a pool thread: the phase goes on once that thread is gone (nothing reaps it before the
+    /// maximum is lowered, so the despawn finds a dead thread among those it retires)
+    pub dying_op: Option<OpId>,
 }
 
 #[derive(Clone, Debug)]
@@ -207,6 +210,8 @@ pub struct PipeDef {
     /// The scripted stream stores the waker before it looks at its state (like AtomicWaker users do), so it still holds a
     /// waker when it reports an item or the end
     pub register_first: bool,
+    /// The input stream calls its waker by reference and keeps it in its slot afterwards (until its next Pending poll replaces it)
+    pub keep_waker: bool,
     /// The processing closure of this pipe owns the feeding end of that other pipe's input: when the closure is destroyed, the other
     /// pipe's input ends (a forwarding chain)
     pub chain_to:   Option<usize>,
@@ -333,7 +338,7 @@ impl Program {
         for p in &self.pipes {
             j.obj();
             j.kv_num("obj", p.obj).kv_bool("through", p.through).kv_num("depth", p.depth).kv_num("items", p.items.len())
-                .kv_num("preloaded", p.preloaded).kv_bool("preclosed", p.preclosed).kv_bool("mpsc", p.mpsc).kv_bool("register_first", p.register_first);
+                .kv_num("preloaded", p.preloaded).kv_bool("preclosed", p.preclosed).kv_bool("mpsc", p.mpsc).kv_bool("register_first", p.register_first).kv_bool("keep_waker", p.keep_waker);
             j.end_obj();
         }
         j.end_arr();
